@@ -605,13 +605,16 @@ func (ex *Explorer) expand(n *node) {
 		ex.addState(n, full, x.Mon, budget, fair, wrote)
 		return t
 	}
-	stuck := true
+	stuck, stuckCtl := true, true
 	for _, label := range es.fair {
 		before := len(n.edges)
 		t := try(label, Fault{}, n.budget, true)
 		for _, e := range n.edges[before:] {
 			if ex.nodes[e.to].key != n.key {
 				stuck = false
+				if !strings.HasPrefix(label, "env.") {
+					stuckCtl = false
+				}
 			}
 		}
 		if n.budget.Disturb > 0 && t.Result != nil {
@@ -664,6 +667,11 @@ func (ex *Explorer) expand(n *node) {
 		if n.quiesc {
 			ex.Counters["final (quiescent) states"]++
 		}
+	}
+	if w.FreeQueues && !stuck && stuckCtl && ex.Cfg.Sc.ColdStart {
+		// a slow environment (pods of a freshly created workload take their time): the controllers' timers may
+		// fire while the workload controller still has work to do
+		es.tick = true
 	}
 	w.Restore(n.snap)
 	x0 := &Ctx{W: w, Sc: ex.Cfg.Sc, Mon: n.mon.clone(), ex: ex, node: n}
@@ -807,7 +815,18 @@ func Settle(w *World) error {
 			}
 		}
 		for _, e := range w.Env {
-			if st := e.Steps(w); len(st) > 0 {
+			st := e.Steps(w)
+			if w.ColdStart {
+				// the workload controller has observed the freshly created workload but not created a pod yet
+				var only []string
+				for _, l := range st {
+					if l == "observe" || strings.HasSuffix(l, ":observe") || strings.HasSuffix(l, "/observe") {
+						only = append(only, l)
+					}
+				}
+				st = only
+			}
+			if len(st) > 0 {
 				if _, err := w.As("env", func() error { return e.Do(w, st[0]) }); err != nil {
 					return err
 				}
